@@ -184,7 +184,7 @@ Section WithOracle.
 
   Lemma mono_add_identifiers t : mono (add_identifiers t).
   Proof.
-    unfold add_identifiers. apply mono_bind; [apply reader_mono, reader_unravel_names|].
+    unfold add_identifiers. apply mono_bind; [apply reader_mono, reader_unravel_gen|].
     intros. apply mono_mapM_. intros. apply mono_mod_ctx.
   Qed.
   Lemma mono_remove_identifiers t : mono (remove_identifiers t).
